@@ -137,6 +137,9 @@ class Game(AsyncMode):
 
         # Wait for player to be added before game can start
         # TODO: Add timeout to wait
+        if self.ending and not self.player_list:
+            # the game has been ended while it was starting. no player will be added anymore
+            return
         await self._at_least_one_player_event.wait()
 
         await self.machine.events.post_async('game_started')
